@@ -3,7 +3,6 @@ package main
 import (
 	"fmt"
 	"math/big"
-	"strings"
 	"time"
 
 	"github.com/lianxiangcloud/linkchain/libs/common"
@@ -35,6 +34,11 @@ type probe struct {
 	nframes       int
 	nreverts      int
 	ndumps        int
+
+	curOp         evm.OpCode // the operation being executed (the last one traced)
+	curSet        bool
+	firstID       int  // id of the first snapshot of the run (the outermost frame's)
+	firstReverted bool // ... and whether it was reverted
 }
 
 type snapRec struct {
@@ -70,6 +74,9 @@ func (p *probe) Snapshot() int {
 	id := p.StateDB.Snapshot()
 	p.nsnap++
 	p.nframes++
+	if p.nsnap == 1 {
+		p.firstID = id
+	}
 	rec := snapRec{id: id, depth: p.vm.VerifDepth() + 1}
 	if rec.depth > p.maxDepth {
 		p.maxDepth = rec.depth
@@ -87,6 +94,9 @@ func (p *probe) Snapshot() int {
 func (p *probe) RevertToSnapshot(id int) {
 	p.StateDB.RevertToSnapshot(id)
 	p.nreverts++
+	if p.nsnap > 0 && id == p.firstID {
+		p.firstReverted = true
+	}
 	idx := -1
 	for i := len(p.recs) - 1; i >= 0; i-- {
 		if p.recs[i].id == id {
@@ -106,10 +116,39 @@ func (p *probe) RevertToSnapshot(id int) {
 	}
 	after := takeDelta(p.StateDB, p.ref)
 	if cl, det := rec.d.diff(after); len(cl) > 0 {
-		p.violation("failed-frame-leaves-state:"+strings.Join(cl, "+"),
-			fmt.Sprintf("frame at depth %d (opened by %v) failed and was reverted, but the world (first = at its Snapshot, second = after RevertToSnapshot; both as differences to the pre-state) differs: %s",
-				rec.depth, p.lastOp[rec.depth-1], det))
+		for _, c := range residueClasses(cl) {
+			p.violation("failed-frame-leaves-state:"+c,
+				fmt.Sprintf("frame at depth %d (opened by %s) failed and was reverted, but the world (first = at its Snapshot, second = after RevertToSnapshot; both as differences to the pre-state) differs: %s",
+					rec.depth, p.opener(rec.depth), det))
+		}
 	}
+}
+
+// opener names what opened the frame at the given depth.
+func (p *probe) opener(depth int) string {
+	if depth <= 1 {
+		return "entry"
+	}
+	return p.lastOp[depth-1].String()
+}
+
+// residueClasses: one violation key per kind of residue. The "credits" counter moves with every balance
+// change, so it is only named when it is the only thing left behind.
+func residueClasses(cl []string) []string {
+	var out []string
+	hasBal := false
+	for _, c := range cl {
+		if c == "balance" || c == "token-balance" {
+			hasBal = true
+		}
+	}
+	for _, c := range cl {
+		if c == "credits" && hasBal {
+			continue
+		}
+		out = append(out, c)
+	}
+	return out
 }
 
 // ---- tracer ----
@@ -122,8 +161,8 @@ func (p *probe) frameFailed(depth int, err error) {
 func (p *probe) resumeAt(d int) {
 	for k, e := range p.failed {
 		if k > d {
-			p.violation("failed-frame-not-reverted:"+p.lastOp[k-1].String(),
-				fmt.Sprintf("frame at depth %d opened by %v ended with %q but no RevertToSnapshot followed before the caller continued", k, p.lastOp[k-1], e))
+			p.violation("failed-frame-not-reverted:"+p.opener(k),
+				fmt.Sprintf("frame at depth %d opened by %s ended with %q but no RevertToSnapshot followed before the caller continued", k, p.opener(k), e))
 			delete(p.failed, k)
 		}
 	}
@@ -157,6 +196,7 @@ func (p *probe) CaptureState(env *evm.EVM, pc uint64, op evm.OpCode, gas, cost u
 	}
 	p.resumeAt(depth)
 	p.lastOp[depth] = op
+	p.curOp, p.curSet = op, true
 	return nil
 }
 
